@@ -23,7 +23,7 @@ func init() {
 			"U sibling uniformity of every kind-specialised family in binary_*.go, unary_ops.go, identifier.go, util.go (a closure that differs from its same-category siblings in operator, operand, type, depth or accessor is reported); " +
 			"A3 the frame on which a variable's slot is read equals the depth label of its arm (0,1,2,file,top, upn in the general arm) and A4 Ints/Vals storage matches the IntBind guard; A2 reflect accessor category equals the category of the conversion target; " +
 			"A5 the dispatch table BinaryExpr1/UnaryExpr is injective and complete over Go's 19 binary operators and every closure of a compile function applies exactly the Go operator of the arm that dispatches to it; A6 left operand from the left expression, right from the right; " +
-			"A7 every constant shortcut (x+0, x*1, x*0, x&-1 ...) is an identity of Go semantics for every operand category that reaches it (table justified by IEEE-754 / two's complement; conjuncts on reflect.Category restrict the categories that reach a shortcut; a compile-time rejection such as 'division by zero' is judged like a rewrite: exact for integers only — found F36; isLiteralNumber(c, -1) on an unsigned operand means all bits set, so x / c is not -x — found F35); A8 every power-of-two strength reduction matches a proven shape, signed shapes only in signed arms, negation only for negative divisors, shift = integerLen(y)-1 under isPowerOfTwo(y); " +
+			"A7 every constant shortcut (x+0, x*1, x*0, x&-1 ...) is an identity of Go semantics for every operand category that reaches it (table justified by IEEE-754 / two's complement; conjuncts on reflect.Category restrict the categories that reach a shortcut; a compile-time rejection such as 'division by zero' is judged like a rewrite: exact for integers only — found F36; isLiteralNumber(c, -1) on an unsigned operand means all bits set, so x / c is not -x — found F35; the world is closed: an explicit replacement of an operation by an operand, a zero or a negation that is not under a recognised test on the constant operand is reported); A7b && and || with constant operands, enumerated over the sixteen combinations of constancy and value, return what Go's value and evaluation order allow (x || true must still evaluate x); A8 every power-of-two strength reduction matches a proven shape, signed shapes only in signed arms, negation only for negative divisors, shift = integerLen(y)-1 under isPowerOfTwo(y); " +
 			"G1 signed shift counts are converted to uint64 only after the negative-count panic; D1 constants are folded iff both operands are constant. " +
 			"The oracle for each closure is Go's own operator on the labelled type (closure bodies are Go expressions over typed operands). " +
 			"Not decided: typing of mixed operands (toSameFuncType / prepareShift), EvalConst itself, comparisons of non-basic types, values computed by reflect or go/constant.",
@@ -35,6 +35,7 @@ func init() {
 			ruleOperatorAnchor(c, "fast", opOf, "A5-operator", "A6-order", nil)
 			ext := extendOps(c, "fast", opOf)
 			ruleShortcuts(c, "fast", ext, "A7-shortcut", nil)
+			ruleBoolShortcuts(c, "A7b-bool-shortcuts")
 			helpers := map[string]string{}
 			for fn, op := range ext {
 				if _, direct := opOf[fn]; !direct {
@@ -52,6 +53,9 @@ func init() {
 			c.Floor("A8-pow2", 40)
 		}, func(c *Ctx) { ruleAccessorFiles(c, "fast", c01Files, "A2-accessor") }},
 		Mutants: []Mutant{
+			{Name: "or-with-constant-true-skips-left-operand", File: "fast/binary.go", Old: "\t\t\treturn c.exprBool(func(env *Env) bool {\n\t\t\t\treturn xfun(env) || true\n\t\t\t})", New: "\t\t\treturn c.exprValue(nil, true)"},
+			{Name: "and-with-constant-true-on-the-left-returns-left", File: "fast/binary.go", Old: "\tif xfun == nil {\n\t\tif xval {\n\t\t\treturn y\n\t\t}\n\t\treturn c.exprValue(nil, false)", New: "\tif xfun == nil {\n\t\tif xval {\n\t\t\treturn x\n\t\t}\n\t\treturn c.exprValue(nil, false)"},
+			{Name: "shift-by-width-or-more-folded-to-zero", File: "fast/binary_shifts.go", Old: "\t\t} else if y == 0 {\n\t\t\treturn xe\n\t\t}", New: "\t\t} else if y == 0 {\n\t\t\treturn xe\n\t\t} else if y >= 8*uint64(xe.Type.Size()) {\n\t\t\treturn c.exprZero(xe)\n\t\t}", Nth: 2},
 			{Name: "quo-by-allones-unsigned-negated", File: "fast/binary_ops.go", Old: "} else if isLiteralNumber(ye.Value, -1) && reflect.Category(xe.Type.Kind()) != xr.Uint {", New: "} else if isLiteralNumber(ye.Value, -1) {"},
 			{Name: "float-division-by-constant-zero-rejected", File: "fast/binary_ops.go", Old: "if isLiteralNumber(y, 0) && reflect.IsCategory(xe.Type.Kind(), xr.Int, xr.Uint) {", New: "if isLiteralNumber(y, 0) {"},
 			{Name: "int16-sub-becomes-add", File: "fast/binary_ops.go", Old: "x := x.(func(*Env) int16)\n\t\t\ty := y.(func(*Env) int16)\n\t\t\tfun = func(env *Env) int16 {\n\t\t\t\treturn x(env) - y(env)", New: "x := x.(func(*Env) int16)\n\t\t\ty := y.(func(*Env) int16)\n\t\t\tfun = func(env *Env) int16 {\n\t\t\t\treturn x(env) + y(env)", Canary: true},
@@ -87,6 +91,8 @@ func c02Rules(c *Ctx) {
 	ext := extendOps(c, "fast", opOf)
 	ruleShortcuts(c, "fast", ext, "A7-shortcut", nil)
 	ruleIdentityStore(c, "A7s-identity-store")
+	rulePlaceOperandOrder(c, "A6m-place-operand-order", []string{"place_set.go", "place_ops.go", "place_shifts.go", "place_set_value.go"})
+	ruleNoSharedRuntimeStorage(c, "H1-no-shared-storage")
 	ruleAbsentMapKey(c, "M1-absent-key", []string{"place_ops.go", "place_shifts.go", "place_set.go", "place_set_value.go", "assignment.go"})
 	helpers := map[string]string{}
 	for fn, op := range ext {
@@ -116,13 +122,14 @@ func init() {
 		ID:    "C02",
 		Title: "Assignments and compound assignments on every kind of place behave as in Go",
 		Explanation: "Decided, exhaustively over the ~4 000 statement closures of var_*.go / place_*.go / assignment.go: U sibling uniformity per kind-family; A3 slot accessed on the frame its depth arm names; A4 Ints/Vals storage matches the IntBind guard and every function that addresses a variable's unboxed slot is entered only for IntBind variables (in-function arm, early return, or every call site under a class test); A2 accessor category; " +
-			"A5 setVar/setPlace dispatch tables injective and complete (every specialisation with the family signature is wired) and each closure applies exactly the Go operator of its arm; A6 right operand from the value parameter, left from the place; A7 constant shortcuts are identities for every category that reaches them (including delegations such as x /= -1 -> x *= -1 and compile-time rejections); A7s an identity shortcut on a map element still evaluates map and key once and writes the element back (found F41); M1 no read of a map element through reflect uses the result of MapIndex without an IsValid test (found F40); A8 power-of-two division shapes; " +
+			"A5 setVar/setPlace dispatch tables injective and complete (every specialisation with the family signature is wired) and each closure applies exactly the Go operator of its arm; A6 right operand from the value parameter, left from the place; A7 constant shortcuts are identities for every category that reaches them (including delegations such as x /= -1 -> x *= -1 and compile-time rejections); A7s an identity shortcut on a map element still evaluates map and key once and writes the element back (found F41); A6m in every statement closure of the place compilers the container is evaluated before the key and both before the right-hand side; M1 no read of a map element through reflect uses the result of MapIndex without an IsValid test (found F40); A8 power-of-two division shapes; " +
 			"S1 every statement closure returns Code[IP] of the environment it returns after exactly one advance of IP (or Code[t] after IP = t) on every path; E2 every captured operand closure (place, map key, right-hand side) is evaluated at most once per path; " +
 			"P1-P4 two-phase multiple assignment: left operands, then right-hand expressions (copied with dup), then stores, map keys copied, two-place fast path only without map keys; I1 ++/-- compile as += / -= the constant one. " +
 			"Not decided: which specialisation is selected for a given program (Place construction), map-element read-modify-write inside reflect, exotic evaluation-order mixes beyond the call-order rule.",
 		Assumptions: []string{"Go operator semantics on basic types", "computation at the category's widest type followed by a truncating store equals computation at the narrow type (two's complement)", "reflect Set*/MapIndex/SetMapIndex as documented"},
 		Rules:       []func(*Ctx){c02Rules},
 		Mutants: []Mutant{
+			{Name: "map-store-evaluates-right-hand-side-first", File: "fast/place_set.go", Old: "\t\t\tobj := lhs(env)\n\t\t\tkey := mapkey(env)\n\t\t\tval := rhs(env)\n\t\t\tif val.Type() != rt {\n\t\t\t\tval = convert(val, rt)\n\t\t\t}\n", New: "\t\t\tval := rhs(env)\n\t\t\tif val.Type() != rt {\n\t\t\t\tval = convert(val, rt)\n\t\t\t}\n\t\t\tobj := lhs(env)\n\t\t\tkey := mapkey(env)\n"},
 			{Name: "varquo-allones-delegates-to-mul", File: "fast/var_ops.go", Old: "} else if isLiteralNumber(val, -1) && reflect.Category(va.Type.Kind()) != xr.Uint {", New: "} else if isLiteralNumber(val, -1) {"},
 			{Name: "identity-shortcut-skips-map-store", File: "fast/assignment.go", Old: "\t\t\tobj.SetMapIndex(key, val)\n", New: ""},
 			{Name: "map-shift-int-arm-reads-unsigned", File: "fast/place_shifts.go", Old: "result := mapIndexInt(lhs, key)", New: "result := mapIndexUint(lhs, key)", Nth: 1},
@@ -159,7 +166,7 @@ func init() {
 			"N2 every interpreted function body runs on a frame from newEnv4Func; N1 every frame obtained with newEnv4Func is released with freeEnv4Func on the same variable in the same block, with no return in between and no slot access after release; Q1 every pointer &E.Ints[i] that leaves its expression is preceded by E.IntAddressTaken = true on the same frame; " +
 			"FE1 freeEnv returns early for UsedByClosure frames and drops Ints of IntAddressTaken frames before pooling; O1/O2 Run.Pool, Run.PoolSize and Env.UsedByClosure are written only by the allocator / MarkUsedByClosure; " +
 			"U sibling uniformity and A3 depth of the fetched function variable and A2 accessor category over the call*ret*/func*ret* specialisations (argument i stored to slot i with the storage of its kind, result read from the result slot). " +
-			"V2 the call closures that cache the converted function of a file-level symbol, keyed on the identity of the xreflect.Value in its slot, obtain the symbol through a function that excludes assignable bindings (found F39: a file-level `var f func()` assigned again kept calling the old function); R2 `return` with several named results evaluates and detaches every expression before it sets any result (found F38: `return b, a`). " +
+			"V2 the call closures that cache the converted function of a file-level symbol, keyed on the identity of the xreflect.Value in its slot, obtain the symbol through a function that excludes assignable bindings (found F39: a file-level `var f func()` assigned again kept calling the old function); R2 `return` with several named results evaluates and detaches every expression before it sets any result (found F38: `return b, a`); H1 no statement or expression closure writes into a buffer that was allocated once by the enclosing compile function, or returns a value allocated there (recursion and goroutines would share it); N3 every result bind is declared with DeclVar0, which zeroes the slot at each entry (a function left by a recovered panic returns the slot as it is). " +
 			"Not decided: variadic packing, multiple results through reflect, recursion depth, that UsedByClosure is sufficient for every escape route (method values).",
 		Assumptions: []string{"a frame is reachable after its call only through closures created in literals over it or through &Ints pointers", "reflect.MakeFunc / ValueOf retain the closure they are given"},
 		Rules: []func(*Ctx){func(c *Ctx) {
@@ -175,6 +182,8 @@ func init() {
 			ruleDepth(c, "fast", c06Files, "A3-depth", "A4-storage")
 			ruleAccessorFiles(c, "fast", c06Files, "A2-accessor")
 			ruleCacheKeys(c, "V2-cache-keys")
+			ruleNoSharedRuntimeStorage(c, "H1-no-shared-storage")
+			ruleResultSlotsZeroed(c, "N3-result-slots-zeroed")
 			ruleReturnParallel(c, "R2-return-parallel")
 			c.Floor("M1-mark-before-escape", 370)
 			c.Floor("N1-new-free", 370)
@@ -183,6 +192,8 @@ func init() {
 			c.Floor("A3-depth", 150)
 		}},
 		Mutants: []Mutant{
+			{Name: "unnamed-result-slot-not-zeroed", File: "fast/function.go", Old: "\t\tbind := c.DeclVar0(name, t.Out(i), nil)\n\t\tbinds[i] = bind", New: "\t\tbind := c.NewBind(name, VarBind, t.Out(i))\n\t\tbinds[i] = bind"},
+			{Name: "argument-buffer-hoisted-out-of-the-call-closure", File: "fast/builtin.go", Old: "\t\t\t\tret = func(env *Env) xr.Value {\n\t\t\t\t\targs := make([]xr.Value, len(argfunsX1))\n\t\t\t\t\tfor i, argfun := range argfunsX1 {\n\t\t\t\t\t\targs[i] = argfun(env)\n\t\t\t\t\t}\n\t\t\t\t\treturn xr.Append(args[0], args[1:]...)", New: "\t\t\t\targs := make([]xr.Value, len(argfunsX1))\n\t\t\t\tret = func(env *Env) xr.Value {\n\t\t\t\t\tfor i, argfun := range argfunsX1 {\n\t\t\t\t\t\targs[i] = argfun(env)\n\t\t\t\t\t}\n\t\t\t\t\treturn xr.Append(args[0], args[1:]...)"},
 			{Name: "mark-dropped-uint8-bool", File: "fast/func1ret1.go", Old: "\n\t\t\t\tenv.MarkUsedByClosure()\n\t\t\t\treturn xr.ValueOf(func(arg0 uint8,\n\n\t\t\t\t) (ret0 bool,", New: "\n\t\t\t\treturn xr.ValueOf(func(arg0 uint8,\n\n\t\t\t\t) (ret0 bool,", Canary: true},
 			{Name: "free-dropped", File: "fast/func0ret1.go", Old: "env.freeEnv4Func()", New: "_ = env", Nth: 3, Canary: true},
 			{Name: "intaddress-mark-before-walk", File: "fast/address.go", Old: "\t\t\t\t\tfor i := 3; i < upn; i++ {\n\t\t\t\t\t\tenv = env.Outer\n\t\t\t\t\t}\n\n\t\t\t\t\tenv.IntAddressTaken = true\n\t\t\t\t\treturn (*float64)", New: "\t\t\t\t\tenv.IntAddressTaken = true\n\t\t\t\t\tfor i := 3; i < upn; i++ {\n\t\t\t\t\t\tenv = env.Outer\n\t\t\t\t\t}\n\n\t\t\t\t\treturn (*float64)"},
@@ -200,7 +211,7 @@ func init() {
 		ID:    "C14",
 		Title: "REPL-style evaluation, one top-level statement at a time, matches in-order Go",
 		Explanation: "Decided (the stable-address clause: a pointer obtained in one evaluation keeps aliasing its variable in every later one): O3 the slot array Env.Ints is (re)assigned only by newEnv, NewEnv, newEnv4Func, freeEnv and prepareEnv; PE1 prepareEnv installs a new array only after the IntAddressTaken error check and publishes cap(Ints) as IntBindMax when an address was taken; " +
-			"NB1 a variable becomes an unboxed IntBind only under IntBindMax == 0 || the slots it needs (two for complex128) still fit below IntBindMax; PE2 the limit is published before every compilation, not only before every run (found F44: the declaration that followed `p := &x` at slot 1024, or a complex128 at slot 1023, broke the interpreter for good); Q1 every &E.Ints[i] that leaves its expression (all of package fast, including imported interpreted packages) is preceded by E.IntAddressTaken = true on the same frame; A4b every function that addresses a variable's unboxed slot is entered only for IntBind variables (the variable being a parameter, or a local obtained from one of the functions that resolve a user expression to a place: rangeVars, Place, Resolve, ... — that clause found F34); V0 no &E.Vals[i] exists (boxed cells are addressed through reflect, so Vals may grow); V1 assignment code stores into a boxed cell and never replaces it; A3/A4/A5/A6 on the variable-assignment specialisations (the boxed arms are reached mostly by REPL histories). " +
+			"NB1 a variable becomes an unboxed IntBind only under IntBindMax == 0 || the slots it needs (two for complex128) still fit below IntBindMax; PE3 when prepareEnv grows a slot array the new array is made with the required length before the old contents are copied; PE2 the limit is published before every compilation, not only before every run (found F44: the declaration that followed `p := &x` at slot 1024, or a complex128 at slot 1023, broke the interpreter for good); Q1 every &E.Ints[i] that leaves its expression (all of package fast, including imported interpreted packages) is preceded by E.IntAddressTaken = true on the same frame; A4b every function that addresses a variable's unboxed slot is entered only for IntBind variables (the variable being a parameter, or a local obtained from one of the functions that resolve a user expression to a place: rangeVars, Place, Resolve, ... — that clause found F34); V0 no &E.Vals[i] exists (boxed cells are addressed through reflect, so Vals may grow); V1 assignment code stores into a boxed cell and never replaces it; A3/A4/A5/A6 on the variable-assignment specialisations (the boxed arms are reached mostly by REPL histories). " +
 			"Not decided: that each evaluation sees the effects of all earlier ones (run-time state), the two-slot complex128 arithmetic on IntBindMax.",
 		Assumptions: []string{"reflect.Value.Addr() of a boxed cell does not point into Env.Vals", "Go's append/make semantics"},
 		Rules: []func(*Ctx){func(c *Ctx) {
@@ -209,6 +220,7 @@ func init() {
 			rulePrepareEnv(c)
 			ruleNewBindMax(c)
 			rulePrepareBeforeCompile(c)
+			ruleGrowKeepsContents(c, "PE3-grow-keeps-contents")
 			ruleInteriorPointers(c, "fast", "Q1-interior-pointer")
 			ruleIntsGuard(c, "fast", "A4-ints-guard")
 			ruleNoValsAddress(c, "fast", "V0-no-vals-address")
@@ -222,6 +234,7 @@ func init() {
 			c.Floor("A4-ints-guard", 18)
 		}},
 		Mutants: []Mutant{
+			{Name: "grown-ints-array-made-empty", File: "fast/repl.go", Old: "binds := make([]uint64, min, capacity)", New: "binds := make([]uint64, 0, capacity)"},
 			{Name: "range-string-direct-store-any-class", File: "fast/range.go", Old: "direct := placeval != nil && placeval.IsVar() && placeval.Var.Desc.Class() == IntBind", New: "direct := placeval != nil && placeval.IsVar()"},
 			{Name: "import-mark-dropped", File: "fast/import.go", Old: "\timpenv.IntAddressTaken = true\n", New: "", Canary: true},
 			{Name: "prepareenv-realloc-unchecked", File: "fast/repl.go", Old: "\t\tif env.IntAddressTaken {\n\t\t\tc.Errorf(\"internal error: attempt to reallocate Env.Ints[] after one of its addresses was taken\")\n\t\t}\n", New: "", Canary: true},
@@ -429,7 +442,7 @@ func init() {
 		Title: "defer, panic and recover follow Go semantics in interpreted code",
 		Explanation: "Decided: X4 in callRecover the panic value is read and consumed only after three early returns (not directly inside a deferred call; no panic in progress; the deferred call belongs to another frame than the panicking one), each a disjunct of its condition, and a successful recover clears Panic and PanicFun; " +
 			"X5 rundefer runs the deferred function between pushDefer and a popDefer registered with Go's defer and re-raises through maybeRepanic only while panicking; every installed function is taken from run.InstallDefer once and registered with Go's own defer (LIFO order and execution during panics are then Go's); Comp.Defer evaluates the function value and arguments when the statement executes, copies them when settable, never inside the installed closure; code with defer selects the flag-aware executor; " +
-			"X6 pushDefer/popDefer save and restore DeferOfFun and the defer flag position by position; O ownership of Run.PanicFun/Panic/DeferOfFun/InstallDefer; S1 statement protocol of the defer/return statements. " +
+			"X6 pushDefer/popDefer save and restore DeferOfFun and the defer flag position by position, and every flag pushDefer raises with a constant is lowered by popDefer; O ownership of Run.PanicFun/Panic/DeferOfFun/InstallDefer; S1 statement protocol of the defer/return statements. " +
 			"E3 the function value and the arguments of a defer statement, evaluated when the statement runs, are detached from the variables they were read from (a settable value is replaced by a copy) before they are kept for the later call. " +
 			"Not decided: event-by-event order for nested panics, modification of named results.",
 		Assumptions: []string{"Go's own defer/recover for the closures registered with defer", "reflect.Value.Call"},
@@ -442,6 +455,7 @@ func init() {
 			ruleStmtProtocol(c, "fast", []string{"statement.go", "code.go", "builtin.go"}, "S1-stmt-protocol")
 		}},
 		Mutants: []Mutant{
+			{Name: "popdefer-leaves-start-flag-set", File: "fast/code.go", Old: "\trun.DeferOfFun = deferOf\n\trun.ExecFlags.SetStartDefer(false)\n", New: "\trun.DeferOfFun = deferOf\n"},
 			{Name: "recover-frame-check-behind-debug", File: "fast/builtin.go", Old: "\tif run.DeferOfFun != run.PanicFun {\n\t\tif debug {", New: "\tif debug && run.DeferOfFun != run.PanicFun {\n\t\tif debug {", Canary: true},
 			{Name: "recover-outside-defer-allowed", File: "fast/builtin.go", Old: "\tif !run.ExecFlags.IsDefer() {\n\t\tif debug {\n\t\t\toutput.Debugf(\"recover() not directly inside a defer\")\n\t\t}\n\t\treturn nilInterface\n\t}\n", New: ""},
 			{Name: "recover-does-not-consume", File: "fast/builtin.go", Old: "\trun.Panic = nil\n\trun.PanicFun = nil\n\treturn v", New: "\trun.Panic = nil\n\treturn v"},
@@ -479,16 +493,19 @@ func init() {
 		ID:    "C13",
 		Title: "Interrupting running code stops it promptly and leaves the interpreter usable",
 		Explanation: "Decided: X7 poll bound: in exec and reExecWithFlags every loop that dispatches statements reads run.Signals on every iteration, and the number of statement dispatches between two polls is a constant computed and reported by the checker (15 today; the rule requires <= 64); before the unbounded loop run.Interrupt is spinInterrupt so jumping statements come back to the poll; Interp.Interrupt reaches a store to Signals.Async; the signal is SigInterrupt unless both debugger options are set; " +
-			"applyAsyncSignal consumes the signal and panics with SigInterrupt; restore re-raises a pending interrupt in the caller; spinInterrupt applies pending asynchronous signals; X6 restore/prepareEnv leave Run clean for the next evaluation (shared with C12). " +
+			"applyAsyncSignal consumes the signal (X7c: clears it unconditionally before it acts, so that deferred functions run by the unwinding are not aborted too) and panics with SigInterrupt; restore re-raises a pending interrupt in the caller; spinInterrupt applies pending asynchronous signals; X6 restore/prepareEnv leave Run clean for the next evaluation (shared with C12). " +
 			"Not decided: latency in wall-clock terms, code blocked inside compiled functions or channel operations.",
 		Assumptions: []string{"every statement closure returns in bounded time unless it calls compiled code"},
 		Rules: []func(*Ctx){func(c *Ctx) {
 			ruleInterruptPolling(c, "X7-interrupt-polling")
+			ruleConsumeBeforeRaise(c, "X7c-consume-before-raise")
+			ruleRunRegistered(c, "X3r-run-registered")
 			ruleSaveRestore(c, "X6-save-restore")
 		}},
 		Mutants: []Mutant{
 			{Name: "unbounded-loop-never-polls", File: "fast/code.go", Old: "\t\t\tstmt, env = stmt(env)\n\n\t\t\tif !run.Signals.IsEmpty() {\n\t\t\t\tbreak\n\t\t\t}\n", New: "\t\t\tstmt, env = stmt(env)\n\n\t\t\tif stmt == nil {\n\t\t\t\tbreak\n\t\t\t}\n", Canary: true},
 			{Name: "interrupt-not-stored", File: "fast/code.go", Old: "\trun.Signals.Async = sig\n}", New: "\t_ = sig\n}", Canary: true},
+			{Name: "async-signal-cleared-after-the-panic", File: "fast/code.go", Old: "func (run *Run) applyAsyncSignal(sig base.Signal) {\n\trun.Signals.Async = base.SigNone\n\tswitch sig {", New: "func (run *Run) applyAsyncSignal(sig base.Signal) {\n\tdefer func() { run.Signals.Async = base.SigNone }()\n\tswitch sig {"},
 			{Name: "async-signal-ignored", File: "fast/code.go", Old: "\tdefault:\n\t\tpanic(base.SigInterrupt)\n", New: "\tdefault:\n\t\tbreak\n"},
 			{Name: "restore-drops-pending-interrupt", File: "fast/code.go", Old: "\tif sig := run.Signals.Async; sig == base.SigInterrupt {\n\t\t// do NOT handle async SigDebug here\n\t\trun.applyAsyncSignal(sig)\n\t}\n", New: ""},
 			{Name: "ctrl-c-always-debugger", File: "fast/code.go", Old: "if run.Options&CtrlCDebug == CtrlCDebug {", New: "if run.Options&CtrlCDebug != 0 {"},
@@ -499,10 +516,13 @@ func init() {
 		Title: "Goroutine identity and per-goroutine runtime state are never shared",
 		Explanation: "Decided: X3 in newEnv4Func the frame pool is reached only through the record selected by `if run.goid != goid { run = run.getRun4Goid(goid) }` with goid = gls.GoID() read in the same call, the new frame is tagged with that record and becomes its CurrEnv; getRun4Goid registers the record it creates; Comp.Go creates the goroutine's record with its own id, registers it and unregisters it with defer; " +
 			"X1 lock set: every access of IrGlobals.gls lies between lock.Lock() and lock.Unlock() of the same object; X2 SpinLock.Lock returns only after a successful CompareAndSwapInt32(s,0,1); O ownership: Run.goid is written only where a record is created, Run.Pool/PoolSize only by the allocator; N2 every interpreted function body runs on a frame obtained with newEnv4Func (never NewEnv); U sibling uniformity of func*ret*.go. " +
+			"X3r every creation of a per-goroutine record (newTopInterp, getRun4Goid, Comp.Go) is followed in the same function by its registration under its own goroutine id; X3g the record of a new goroutine is attached to the frame created for it, never to the parent's frame. " +
 			"Not decided: uniqueness of GoID among live goroutines (assembly, trusted), schedules.",
 		Assumptions: []string{"gls.GoID returns a value unique among live goroutines", "sync/atomic semantics"},
 		Rules: []func(*Ctx){func(c *Ctx) {
 			ruleGoidGate(c, "X3-goid-gate")
+			ruleGoAttachesToOwnFrame(c, "X3g-go-own-frame")
+			ruleRunRegistered(c, "X3r-run-registered")
 			ruleLockSet(c, "fast", "IrGlobals", "gls", "lock", "X1-lock-set")
 			ruleSpinLock(c, "X2-spinlock")
 			ruleOwnership(c, "O-goid-owner", "fast", "Run", "goid", []string{"fast.Run.new#lit", "fast.newTopInterp#lit"}, "a record's goroutine id is fixed when the record is created")
@@ -514,6 +534,8 @@ func init() {
 		}},
 		ThoroughConfigs: []string{"linux/386", "linux/arm64", "darwin/amd64"},
 		Mutants: []Mutant{
+			{Name: "main-record-not-registered", File: "fast/interpreter.go", Old: "\tg.gls[goid] = run\n", New: ""},
+			{Name: "goroutine-record-attached-to-parent-frame", File: "fast/statement.go", Old: "\t\t\tenv2.Run = tg2\n", New: "\t\t\tenv.Run = tg2\n"},
 			{Name: "frame-tagged-with-declaring-goroutine", File: "fast/compile.go", Old: "\t\tenv.Outer = outer\n\t\tenv.Run = run\n\t\tenv.FileEnv = outer.FileEnv\n\t}\n\tenv.DebugComp = debugComp", New: "\t\tenv.Outer = outer\n\t\tenv.Run = outer.Run\n\t\tenv.FileEnv = outer.FileEnv\n\t}\n\tenv.DebugComp = debugComp", Canary: true},
 			{Name: "gate-removed", File: "fast/compile.go", Old: "\tif run.goid != goid {\n\t\t// no luck... get the correct ThreadGlobals for goid\n\t\trun = run.getRun4Goid(goid)\n\t}\n", New: "\t_ = goid\n"},
 			{Name: "gls-read-unlocked", File: "fast/compile.go", Old: "\tg.lock.Lock()\n\tret := g.gls[goid]\n\tg.lock.Unlock()\n", New: "\tret := g.gls[goid]\n", Canary: true},
@@ -534,6 +556,7 @@ func init() {
 			ruleLockSet(c, "fast", "IrGlobals", "gls", "lock", "X1-lock-set")
 			ruleSpinLock(c, "X2-spinlock")
 			ruleGoidGate(c, "X3-goid-gate")
+			ruleGoAttachesToOwnFrame(c, "X3g-go-own-frame")
 			ruleDetachedOperands(c, "E3-detached-operands", "fast.Comp.Go")
 			ruleUniformity(c, "fast", []string{"channel.go", "select.go"}, "U-uniform")
 			ruleStmtProtocol(c, "fast", []string{"channel.go", "select.go", "statement.go"}, "S1-stmt-protocol")
